@@ -170,6 +170,14 @@ class VRes:
         return f"VRes({self.ok}, {self.val})"
 
 
+class VEnum:
+    """field-less enum value with a concrete discriminant (e.g. TimeUnit)"""
+    __slots__ = ("disc",)
+
+    def __init__(self, disc):
+        self.disc = disc
+
+
 class VSeq:
     """A finite lazily-mapped sequence (e.g. `(start..=end).map(closure)`): list of values."""
     __slots__ = ("items",)
